@@ -130,8 +130,7 @@ class Catalog:
                 notnull = 1 if c.notnull else 0
                 if td.without_rowid and pos:
                     notnull = 1
-                out.append((c.name, c.type, notnull,
-                            c.default if c.default is not None else '', pos))
+                out.append((c.name, c.type, notnull, _dflt(c.default), pos))
             return out
         if key in self.views:
             return self.view_info(self.views[key])
@@ -224,7 +223,18 @@ class Catalog:
         """[(seqno, colname)]"""
         key = index.lower()
         if key in self.indexes:
-            return [(i, c) for i, c in enumerate(self.indexes[key].columns)]
+            ix = self.indexes[key]
+            td = self.tables.get(ix.table.lower())
+            out = []
+            for i, c in enumerate(ix.columns):
+                # an expression column has no name (SQLite reports NULL)
+                if td is not None and td.col(c) is not None:
+                    out.append((i, td.col(c).name))
+                elif td is not None and c.lower() in ('rowid', 'oid', '_rowid_'):
+                    out.append((i, c))
+                else:
+                    out.append((i, ''))
+            return out
         for td in self.tables.values():
             for n, u, o, cols in self.auto_indexes(td):
                 if n.lower() == key:
@@ -286,6 +296,17 @@ class Catalog:
             i += 1
             out[('trigger', key)] = ('trigger', tr.name, sql.norm_tokens(toks[i:]))
         return out
+
+
+def _dflt(d):
+    """dflt_value as PRAGMA table_info reports it: the text of the default
+    expression; for DEFAULT (expr) the text inside the parentheses."""
+    if d is None:
+        return ''
+    d = d.strip()
+    if d.startswith('(') and d.endswith(')'):
+        return d[1:-1].strip()
+    return d
 
 
 def from_statements(stmts, label=''):
